@@ -50,8 +50,8 @@ Definition case_line (u : string * ty) : string :=
   let an := ast_nodes pkg imp ds in
   let ln := loader_nodes pkg imp ds in
   let files := join "," (sort_strs (map (fun n => lower_str (n_name n) ++ "_ins.go") an)) in
-  let xa := join "," (map (fun n => lower_str (n_name n) ++ ":" ++ hash_text (xml n)) an) in
-  let xl := join "," (map (fun n => lower_str (n_name n) ++ ":" ++ hash_text (xml n)) ln) in
+  let xa := join "," (sort_strs (map (fun n => lower_str (n_name n) ++ ":" ++ hash_text (xml n)) an)) in
+  let xl := join "," (sort_strs (map (fun n => lower_str (n_name n) ++ ":" ++ hash_text (xml n)) ln)) in
   let model := "gen=ok;files=" ++ files ++ ";fmt=ok;build=ok;iface=ok;xmlast=" ++ xa ++ ";xmlpkg=" ++ xl ++ ";det=ok;tgt=ok" in
   root ++ tab ++ unit_tags body ++ tab ++ pkg ++ ";" ++ root ++ ";" ++ hex_of_bytes (bytes_of_string src) ++ tab ++
   (if sup_root body then model else "?") ++ tab ++ model.
